@@ -260,7 +260,7 @@ FamilySStruct(p) ==
   \E ptr \in BOOLEAN : \E tagD \in {"pre", "pre2", "foreign", "other"} :
     \/ \E sel \in SSelections : (tagD = "pre" \/ \E i \in DOMAIN sel : sel[i] = "D") /\ p = SStructProg(sel, FALSE, ptr, tagD, ConcatStr([i \in DOMAIN sel |-> sel[i] \o ","]))
     \/ p = SStructProg(<<>>, TRUE, ptr, tagD, "star")
-    \/ tagD = "pre" /\ \E x \in {"Z", "D", "A"} : p = SStructProg(<<"*", x>>, FALSE, ptr, tagD, "star+" \o x)
+    \/ tagD = "pre" /\ \E x \in {"Z", "D", "A"} : p = SStructProg(<<"*", x, "A", "B", "c", "a">>, FALSE, ptr, tagD, "star+" \o x)
 
 \* FieldsOf: names = the listed fields; want[i] \in {"v","p"}: consumed by value / by pointer to the field
 SFieldsProg(pptr, src, names, want) ==
@@ -445,4 +445,27 @@ FamilyM(p, bases) ==
          /\ (\A i \in DOMAIN g : g[i] # "B") => pb = "a"
          /\ (\A i \in DOMAIN g : g[i] # "C") => pc = "a"
          /\ p = MProg(b, g, how, pb, pc)
+
+(* ======================================================================== *)
+(* Family T (type kinds).  The provided / result type T1 is a named type or *)
+(* an alias of every kind of Go type; one provider that can fail (so the    *)
+(* error path needs a zero value of that kind), optionally with a cleanup;  *)
+(* fault schedules as in family R.  Also long chains of cleanup providers   *)
+(* (more than ten generated cleanup names).                                 *)
+(* ======================================================================== *)
+TKinds == {"bool", "int", "float64", "complex128", "string", "uintptr", "[2]int", "struct{ A int }", "*int", "[]int",
+           "map[string]int", "chan int", "func() int", "interface{}", "error", "[]T2", "map[T2]*T2", "*T2", "T2", "unsafe.Pointer"}
+TProg(kind, alias, fl, va) ==
+  LET key == "T/" \o kind \o "/" \o (IF alias THEN "alias" ELSE "named") \o "/" \o fl \o (IF va THEN "/variadic" ELSE "")
+  IN [Prog(key, "R", <<MkAtom("T1", "named", "a", <<>>, <<>>, <<>>, (IF alias THEN "=" ELSE "") \o kind), Tok("T2"), Tok("T3")>>,
+           <<Func("P1", <<"T3">>, "T1", FlCl(fl), FlEr(fl)), Func("P3", <<>>, "T3", TRUE, FALSE)>>, <<>>,
+           <<[Inj("Inject", IF va THEN <<Par("xs", "[]T2")>> ELSE <<>>, "T1", TRUE, TRUE, <<ItL(1), ItL(2)>>) EXCEPT !.va = va]>>) EXCEPT !.fam = "R"]
+FamilyT(p) == \E k \in TKinds : \E al \in BOOLEAN : \E fl \in {"e", "b"} : \E va \in BOOLEAN :
+                 (va => fl = "e" /\ ~al) /\ p = TProg(k, al, fl, va)
+\* a chain P1 <- P2 <- ... <- Pn of cleanup(+error) providers
+ChainProg(n, fl) ==
+  [Prog("R/chain/n" \o ToString(n) \o "/" \o fl, "R", [i \in 1..n |-> Tok(TN(i))],
+        [i \in 1..n |-> Func(PN(i), IF i < n THEN <<TN(i + 1)>> ELSE <<>>, TN(i), FlCl(fl), FlEr(fl) /\ (i = 1 \/ i = n \/ i = n \div 2))], <<>>,
+        <<Inj("Inject", <<>>, TN(1), TRUE, TRUE, [i \in 1..n |-> ItL(i)])>>) EXCEPT !.fam = "R"]
+FamilyChain(p, ns) == \E n \in ns : \E fl \in {"c", "b"} : p = ChainProg(n, fl)
 =============================================================================
